@@ -6,11 +6,13 @@ import (
 	"crypto/sha256"
 	"encoding/hex"
 	"encoding/json"
+	"errors"
 	"fmt"
 	"os"
 	"path/filepath"
 	"sort"
 	"strconv"
+	"strings"
 	"sync"
 	"testing"
 
@@ -130,6 +132,18 @@ func (e *Inconclusive) Error() string { return "INCONCLUSIVE: " + e.msg }
 
 func Inconclusivef(f string, a ...interface{}) error { return &Inconclusive{fmt.Sprintf(f, a...)} }
 
+// asInconclusive recognises an inconclusive verdict even when a check wrapped it with %v.
+func asInconclusive(err error) (*Inconclusive, bool) {
+	var inc *Inconclusive
+	if errors.As(err, &inc) {
+		return inc, true
+	}
+	if err != nil && strings.Contains(err.Error(), "INCONCLUSIVE: ") {
+		return &Inconclusive{msg: strings.Replace(err.Error(), "INCONCLUSIVE: ", "", 1)}, true
+	}
+	return nil, false
+}
+
 // ---- property runner ------------------------------------------------------------------------
 
 func Tier() string {
@@ -181,7 +195,7 @@ func RunProp[C any](t *testing.T, id string, gen func(*rapid.T) C, check func(C,
 		err = check(c, o)
 		stats.record(env.Case, o)
 		if err != nil {
-			if _, ok := err.(*Inconclusive); ok {
+			if _, ok := asInconclusive(err); ok {
 				stats.Inconcl = append(stats.Inconcl, err.Error())
 				t.Skip(err.Error())
 			}
@@ -199,7 +213,7 @@ func RunProp[C any](t *testing.T, id string, gen func(*rapid.T) C, check func(C,
 		o := &Obs{}
 		err := check(c, o)
 		if err != nil {
-			if inc, ok := err.(*Inconclusive); ok {
+			if inc, ok := asInconclusive(err); ok {
 				stats.mu.Lock()
 				stats.Inconcl = append(stats.Inconcl, inc.Error())
 				stats.mu.Unlock()
@@ -333,7 +347,7 @@ func RunCases[C any](t *testing.T, id string, next func(i int) (C, bool), check 
 		err = check(c, o)
 		stats.record(env.Case, o)
 		if err != nil {
-			if _, ok := err.(*Inconclusive); ok {
+			if _, ok := asInconclusive(err); ok {
 				t.Skip(err.Error())
 			}
 			stats.Failures = append(stats.Failures, failureRec{Msg: err.Error(), Replay: rp})
@@ -352,7 +366,7 @@ func RunCases[C any](t *testing.T, id string, next func(i int) (C, bool), check 
 		o := &Obs{}
 		err := check(c, o)
 		if err != nil {
-			if inc, ok := err.(*Inconclusive); ok {
+			if inc, ok := asInconclusive(err); ok {
 				stats.mu.Lock()
 				stats.Inconcl = append(stats.Inconcl, inc.Error())
 				stats.mu.Unlock()
